@@ -364,7 +364,8 @@ namespace GeographicLib {
      * @param[out] m arc minutes.
      **********************************************************************/
     static void Encode(real ang, real& d, real& m) {
-      d = int(ang); m = real(Math::dm) * (ang - d);
+      using std::trunc;
+      d = trunc(ang); m = real(Math::dm) * (ang - d);
     }
 
     /**
@@ -376,8 +377,9 @@ namespace GeographicLib {
      * @param[out] s arc seconds.
      **********************************************************************/
     static void Encode(real ang, real& d, real& m, real& s) {
-      d = int(ang); ang = real(Math::dm) * (ang - d);
-      m = int(ang); s = real(Math::ms) * (ang - m);
+      using std::trunc;
+      d = trunc(ang); ang = real(Math::dm) * (ang - d);
+      m = trunc(ang); s = real(Math::ms) * (ang - m);
     }
 
   };
